@@ -268,7 +268,8 @@ const GOOD: [&str; 6] = ["upgrade", "websocket", "13", "penguin-v7", "dGhlIHNhbX
 
 /// variant of header i: 0 exact, 1 absent, 2 upper-case value, 3 near-miss, 4 duplicate first bad,
 /// 5 duplicate first good, 6 empty, 7 mixed-case name, 8 value with surrounding space,
-/// 9 leading zero, 10 leading plus, 11 trailing ".0", 12 a trailing octet beyond ASCII
+/// 9 leading zero, 10 leading plus, 11 trailing ".0", 12 a trailing octet beyond ASCII,
+/// 13 a letter replaced by a non-ASCII character that Unicode case folding maps to it
 fn header_variant(i: usize, var: u64, psk: &[u8], out: &mut Vec<(Vec<u8>, Vec<u8>)>) {
     let name = NAMES[i].as_bytes().to_vec();
     let good: Vec<u8> = if i == 5 { psk.to_vec() } else { GOOD[i].as_bytes().to_vec() };
@@ -320,6 +321,25 @@ fn header_variant(i: usize, var: u64, psk: &[u8], out: &mut Vec<(Vec<u8>, Vec<u8
             v.extend(b".0");
             out.push((name, v));
         }
+        // a value in which a letter is replaced by a character that Unicode case folding (but not ASCII case folding) maps
+        // to it: the Kelvin sign for k, the long s for s; with neither letter, a trailing long s
+        13 => {
+            let mut v = Vec::new();
+            let mut done = false;
+            let kind = if good.iter().any(|c| c.eq_ignore_ascii_case(&b'k')) { b'k' } else { b's' };
+            for &c in &good {
+                if !done && c.eq_ignore_ascii_case(&kind) {
+                    v.extend(if kind == b'k' { &[0xe2u8, 0x84, 0xaa][..] } else { &[0xc5u8, 0xbf][..] });
+                    done = true;
+                } else {
+                    v.push(c);
+                }
+            }
+            if !done {
+                v.extend([0xc5u8, 0xbf]);
+            }
+            out.push((name, v));
+        }
         // a value with an octet beyond ASCII (obs-text is legal in a header value): for the key, a valid upgrade whose accept
         // hash must still be the hash of the octets sent; for the other headers, not the expected value
         _ => {
@@ -364,7 +384,7 @@ pub fn generate(a: &Args, out: &mut Out) {
                     for (mi, m) in methods.iter().enumerate() {
                         for (pi, p) in paths.iter().enumerate() {
                             for hi in 0..7usize {
-                                for var in 0..13u64 {
+                                for var in 0..14u64 {
                                     if hi == 6 && var > 0 {
                                         continue;
                                     }
@@ -390,7 +410,7 @@ pub fn generate(a: &Args, out: &mut Out) {
         let presented = r.pick(&[&b"s3cret"[..], b"s3cre", b"S3CRET", b"s3cret ", b"", b"s3cretx"]);
         let mut hs = Vec::new();
         for i in 0..6 {
-            let var = if r.chance(3, 5) { 0 } else { r.below(13) };
+            let var = if r.chance(3, 5) { 0 } else { r.below(14) };
             header_variant(i, var, presented, &mut hs);
         }
         if r.chance(1, 4) {
